@@ -9,6 +9,7 @@ import (
 	"fmt"
 	"os"
 	"path/filepath"
+	"runtime/debug"
 	"strings"
 )
 
@@ -70,6 +71,7 @@ func runMutants(property, only string, verbose bool) (int, int, []string) {
 			continue
 		}
 		mutated := strings.Replace(string(src), m.Old, m.New, 1)
+		debug.FreeOSMemory() // each run loads the packages afresh; give the previous one's memory back first
 		run, err := runProperty(m.Property, "quick", 10, map[string][]byte{path: []byte(mutated)}, m.Func)
 		if err != nil {
 			msgs = append(msgs, fmt.Sprintf("%s: %v", m.ID, err))
